@@ -180,6 +180,20 @@ func init() {
 				cse.TimeoutMS = 120000
 				cs = append(cs, cse)
 			}
+			// a triggering that starts right after another one ended with a tick still undelivered (its last evaluation was
+			// slow and the run was over when it returned): the new one keeps its own cadence from its first evaluation on
+			naf := 2
+			if tier == "thorough" {
+				naf = 8
+			}
+			for i := 0; i < naf; i++ {
+				mode := pick(r, "custom", "constant", "staged")
+				p := c09Params{Desc: "aftermath mode=" + mode, Spec: engine.RateSpec(mode, 1, 20, 2)}
+				cse := core.MkCase("C09", "aftermath", i, seed, p)
+				cse.Solo = true
+				cse.TimeoutMS = 60000
+				cs = append(cs, cse)
+			}
 			nz := 6
 			if tier == "thorough" {
 				nz = 30
@@ -211,7 +225,7 @@ func init() {
 			}
 			return cs
 		},
-		Kinds:  map[string]core.RunFunc{"cadence": c09Cadence, "first": c09First, "promptfirst": c09PromptFirst, "zero": c09Zero, "fastticks": c09FastTicks, "lasttick": c09LastTick, "deadfirst": c09DeadFirst},
+		Kinds:  map[string]core.RunFunc{"cadence": c09Cadence, "first": c09First, "promptfirst": c09PromptFirst, "aftermath": c09Aftermath, "zero": c09Zero, "fastticks": c09FastTicks, "lasttick": c09LastTick, "deadfirst": c09DeadFirst},
 		Floors: map[string]int64{"evaluations_checked": 300, "sum_checked_runs": 10, "first_runs": 4, "zero_runs": 4},
 	})
 }
@@ -475,6 +489,70 @@ func c09PromptFirst(c *core.Case, o *core.Outcome) {
 	o.AddObs("prompt_first_runs", 3)
 	o.Sig("promptfirst:mode=%s", p.Spec.Mode)
 	o.Sample = map[string]any{"case": p.Desc, "smallest_delay_us": best.Microseconds()}
+}
+
+// c09Aftermath: eight pairs of triggerings in one process. The first of a pair (20 ms ticks) is ended during a slow
+// evaluation, so that a tick of its ticker is due and undelivered when it ends; the second (150 ms ticks) starts at once
+// and must satisfy t_k - t_0 >= k x interval like any other.
+func c09Aftermath(c *core.Case, o *core.Outcome) {
+	var p c09Params
+	c.Params(&p)
+	scenario := func(t *f1testing.T) f1testing.RunFn { return func(*f1testing.T) {} }
+	for pair := 0; pair < 8; pair++ {
+		{
+			ctx, cancel := context.WithCancel(context.Background())
+			spec := engine.RateSpec(p.Spec.Mode, 1, 20, 2)
+			spec.IgnoreDropped = true
+			hooks := &engine.Hooks{OnRate: func(k int, _ time.Time, v int) int {
+				if k == 2 {
+					cancel()
+					time.Sleep(50 * time.Millisecond)
+				}
+				return v
+			}}
+			r := engine.Execute(ctx, spec, engine.NewLog(), scenario, hooks, nil)
+			cancel()
+			if r.NewErr != nil {
+				o.Inconc("harness: cannot build run: %v", r.NewErr)
+				return
+			}
+		}
+		ctx, cancel := context.WithCancel(context.Background())
+		l := engine.NewLog()
+		interval := 150 * time.Millisecond
+		spec := engine.RateSpec(p.Spec.Mode, 1, 150, 2)
+		spec.IgnoreDropped = true
+		var mu sync.Mutex
+		var ts []time.Duration
+		hooks := &engine.Hooks{OnRate: func(k int, _ time.Time, v int) int {
+			mu.Lock()
+			ts = append(ts, l.Now())
+			mu.Unlock()
+			if k == 2 {
+				cancel()
+			}
+			return v
+		}}
+		r := engine.Execute(ctx, spec, l, scenario, hooks, nil)
+		cancel()
+		if r.NewErr != nil {
+			o.Inconc("harness: cannot build run: %v", r.NewErr)
+			return
+		}
+		mu.Lock()
+		for i := 1; i < len(ts); i++ {
+			if ts[i]-ts[0] < time.Duration(i)*interval {
+				o.Violate("cadence-after:"+p.Desc, "pair %d: evaluation %d of a trigger with %v ticks happened %v after its first evaluation - it started right after a triggering that ended with a tick undelivered, and got that tick (%s)", pair, i, interval, ts[i]-ts[0], p.Desc)
+				mu.Unlock()
+				return
+			}
+			o.AddObs("evaluations_checked", 1)
+		}
+		o.Events += int64(len(ts))
+		mu.Unlock()
+	}
+	o.AddObs("aftermath_pairs", 8)
+	o.Sig("aftermath:mode=%s", p.Spec.Mode)
 }
 
 func c09Zero(c *core.Case, o *core.Outcome) {
